@@ -52,13 +52,14 @@ EvModes ==
 EvPreMilestone ==
   /\ E.ev = "PreMilestone"
   /\ LET t == E.task
-         ok == T(t).effort = 0 /\ (T(t).pin >= 0 \/ T(t).pinEnd >= 0)
+         ok == T(t).effort = 0 /\ (T(t).pin >= 0 \/ T(t).pinEnd >= 0 \/ (NearestEnd(t) >= 0 /\ E.end = NearestEnd(t)))
      IN /\ ts' = [ts EXCEPT ![t].st = "done", ![t].sched = TRUE, ![t].start = E.start, ![t].end = E.end]
         /\ conf' = (conf /\ ok) /\ div' = Note(ok, <<"PreMilestone", t>>)
         \* a milestone has start = end; one that is not pinned by the user sits at its dependency bound,
         \* which cannot be known before its predecessors are placed
         /\ bad' = bad \cup Flag(E.start = E.end, <<"C06", l, "milestone start#end", t>>)
-                      \cup Flag(T(t).pin >= 0 \/ T(t).pinEnd >= 0 \/ AllDeps(t) = {},
+                      \cup Flag(T(t).pin >= 0 \/ T(t).pinEnd >= 0 \/ AllDeps(t) = {}
+                                   \/ (NearestEnd(t) >= 0 /\ E.end = NearestEnd(t)),   \* anchored at a container deadline
                                 <<"C04", l, "unpinned milestone placed before its predecessors", t>>)
   /\ UNCHANGED <<used, usage, lim, lsec, cur>>
 
@@ -216,7 +217,7 @@ EvDone ==
                       \cup Flag(~E.ok \/ P04Of(t, E.start, E.end), <<"C04", l, "starts before predecessor end + gap", t>>)
                       \cup Flag(~(E.ok /\ worked) \/ P06Tight(t, E.start, E.end, ts[t].lo, ts[t].hi), <<"C06", l, "not tight", t>>)
                       \* milestone: start = end at its bound (own pin, else dependency bound)
-                      \cup Flag(~(E.ok /\ isMs /\ Fwd(t)) \/ (E.start = E.end /\ E.start = BoundF(t)), <<"C06", l, "milestone not at its bound", t>>)
+                      \cup Flag(~(E.ok /\ isMs) \/ (E.start = E.end /\ E.start = IF Fwd(t) THEN BoundF(t) ELSE Deadline(t)), <<"C06", l, "milestone not at its bound", t>>)
                       \cup Flag(P02Set(ts[t].pb), <<"C02", l, "booked outside working time", <<t, ts[t].pb>>>>)
                       \cup Flag(\A x \in ts[t].lk : P05At(lsec, x), <<"C05", l, "limit exceeded", {x \in ts[t].lk : ~P05At(lsec, x)}>>)
                       \cup Flag(~E.ok \/ T(t).effort = 0 \/ T(t).other \/ Len(T(t).alloc) = 0 \/
